@@ -1,0 +1,4 @@
+// Package verifhook holds verification instrumentation. Everything except this
+// file is guarded by the `verif` build tag; without the tag the package is empty
+// apart from no-op stubs and no other package's behaviour changes.
+package verifhook
